@@ -40,6 +40,7 @@ META = {
         " Fault-overlap family (mc/fault_overlap.py): message X suffers one fault out of {pre_execute/post_execute/post_save/on_error hook, sync or async ack, result backend} x {RuntimeError, CancelledError, TimeoutError}, backend failing once, body raise/CancelledError/timeout/no-result, malformed/unknown message, broker stream error, while the healthy message Y has suspension points before, inside and after its function and the stop request may arrive at any point; Y (and X where the fault does not prevent it) is invoked exactly once and listen() does not return while a taken message still waits to be invoked (W=None)."
         " Repeated faults (mc/fault_overlap.py::repeats): the same fault k times in a row (k in 3..6; thorough up to 10) on one worker, then healthy messages - a counter, pool, budget or throttle inside the worker must not change what happens at the k-th occurrence."
         " Message kinds 'l' / 't': labels as a kicker sends them (prepared text + labels_types), fully typed and with un-typed labels added later by a client middleware."
+        " Finite wait_tasks_timeout (0, 0.3; thorough 0.1 too) with a stop request at any point: a taken message is either still in processing when listen() returns or has been executed."
     ),
     "assumptions": [
         "asyncio semantics as implemented by BaseEventLoop (the loop is a subclass; only clock/selector are replaced)",
@@ -94,6 +95,12 @@ def scenarios(tier: str) -> List[Dict[str, Any]]:
     for w in l2_words:
         for (a, p, n) in l2_cfg:
             out.append({"A": a, "P": p, "N": n, "stream": "infinite", "stop": True, "msgs": _msgs(w), "level": 2})
+    # a finite wait_tasks_timeout (0 = do not wait at all): a message taken around the stop request is either
+    # still in processing when listen() returns or has been executed - never ended without its function running
+    for w in ("v", "vv", "vvv", "av", "sv", "lv"):
+        for a, p in ((None, 0), (1, 2), (2, 0), (2, 2)):
+            for wt in ((0, 0.3) if tier == "quick" else (0, 0.1, 0.3)):
+                out.append({"A": a, "P": p, "N": None, "W": wt, "stream": "infinite", "stop": True, "msgs": _msgs(w), "level": 0})
     out += fault_family(tier)
     return out
 
